@@ -11,7 +11,7 @@ BOUNDS = {
              'cmp_equal..cmp_greater_equal, in_range, saturate_cast: all 64 ordered type pairs. gcd/lcm over all pairs of values for (u8,u8) and (i8,i8) (definition and '
              'std::gcd/std::lcm), gcd for (u8,i8), (i8,u8), (u8,u16) with |n| <= 255 (Euclid unwound 15/18); gcd(0, n) and gcd(m, 0) for all 64 ordered type pairs; at every width the slices gcd(x,x), gcd/lcm of (x,0), (0,x), (x,1), (1,x) and '
              '(2^a, 2^b); lcm(x,x) 8-bit only. hton/ntoh: char, int8_t, uint8_t, uint16_t, uint32_t',
-    'thorough': 'as quick, plus: ipow exponent 0..16; pointer midpoint inside a 33-element array; div_sat/idiv int64_t mixed-sign cases (np, pn; 3000 s budget); lcm for (u8,i8), '
+    'thorough': 'as quick, plus: ipow exponent 0..16; pointer midpoint inside a 33-element array; div_sat/idiv int64_t mixed-sign cases (np, pn; 2400 s budget); lcm for (u8,i8), '
                 '(i8,u8), (u8,u16); gcd for (u8,i16), (i8,u16), (i8,i16) with |n| within the range of the first type; lcm(x,x) 16-bit. Outside the bound: gcd/lcm over all pairs for 16-bit x 16-bit and wider (one of the 256 '
                 'high-byte slices of uint16_t gcd: no verdict in 900 s, so the split planned in DESIGN.md is not run), gcd (u16,u8) (no verdict in 400 s), lcm(x,x) for 32/64 bits '
                 '(no verdict in 1200 s)',
@@ -95,7 +95,7 @@ def queries(tier, prop='C14'):
                     hard = w == 64 and sg in ('np', 'pn')   # measured 680 s / 1290 s (loaded machine): thorough tier only
                     if hard and quick:
                         continue
-                    add('%s_%s' % (e, sg), t, 4, solver='kissat', budget=3000 if hard else 120)
+                    add('%s_%s' % (e, sg), t, 4, solver='kissat', budget=2400 if hard else 120)
         # ipow, symbolic base and exponent: two multiplier chains; z3 on the exported VC for 32/64 bits (SAT back ends do not finish)
         add('ipow', t, emax + 2, solver='minisat' if w < 32 else 'z3', budget=120 if quick else 600)
         add('ipow_wit', t, emax + 2, solver='minisat' if w < 32 else 'kissat')
